@@ -251,6 +251,89 @@ fn run_many_groups(cx: &mut CaseCx, case: &Value) {
   cx.sample(json!({"t": t, "groups": g, "reports": n, "revealed": want.len()}));
 }
 
+
+/// one revealed group per measurement LENGTH 0..=60 (framing / padding boundaries), with and without aux
+fn run_lengths(cx: &mut CaseCx, case: &Value) {
+  let t = case["t"].as_u64().unwrap() as u32;
+  let with_aux = case["aux"].as_bool().unwrap();
+  let server = AggregationServer::new(t, "t");
+  let mut reps: Vec<Rep> = vec![];
+  for len in 0..=60usize {
+    let meas: Vec<u8> = (0..len).map(|i| b'a' + ((len + i) % 26) as u8).collect();
+    let rnd = local_randomness(&meas, b"t", t);
+    for k in 0..t as usize {
+      getrandom::verif::set_group((len * 8 + k) as u32 + 1);
+      let aux = if with_aux { aux_for(len + k) } else { None };
+      if let Ok(msg) = gen_report(&meas, b"t", t, &rnd, &aux) {
+        if let Some(x) = share_x(&msg.share.to_bytes()) {
+          reps.push(Rep { msg, meas: meas.clone(), aux, x });
+        }
+      }
+    }
+  }
+  let all: Vec<&Rep> = reps.iter().collect();
+  let want = expected(&all, t);
+  cx.nontrivial(fnv_str(&case.to_string()));
+  for (pn, pool) in pools(&[1, 4]) {
+    let msgs: Vec<Message> = reps.iter().map(|r| r.msg.clone()).collect();
+    // group by group first, so that a failure names the measurement length
+    for len in 0..=60usize {
+      let sub: Vec<Message> = reps.iter().filter(|r| r.meas.len() == len).map(|r| r.msg.clone()).collect();
+      let sub_reps: Vec<&Rep> = reps.iter().filter(|r| r.meas.len() == len).collect();
+      if !judge(cx, observe(&server, &pool, &sub), &expected(&sub_reps, t), &|| json!({"t": t, "measurement_length": len, "associated_data": with_aux, "worker_threads": pn})) {
+        return;
+      }
+    }
+    if !judge(cx, observe(&server, &pool, &msgs), &want, &|| json!({"t": t, "measurement_lengths": "0..=60", "associated_data": with_aux, "worker_threads": pn})) {
+      return;
+    }
+  }
+  cx.count("revealed_groups", want.len() as u64);
+  cx.outcome("lengths 0..60");
+  cx.sample(json!({"t": t, "measurement_lengths": "0..=60", "associated_data": with_aux, "revealed": want.len()}));
+}
+
+/// many thousand reports: groups straddle every internal batching boundary one could think of (orders interleave groups)
+fn run_large_input(cx: &mut CaseCx, case: &Value) {
+  let t = case["t"].as_u64().unwrap() as u32;
+  let g = case["groups"].as_u64().unwrap() as usize;
+  let sizes: Vec<usize> = (0..g).map(|i| 1 + (i * 7 + 3) % (2 * t as usize)).collect();
+  let reps = match make_reports(cx, t, &sizes, false) {
+    Some(r) => r,
+    None => return,
+  };
+  let n = reps.len();
+  let server = AggregationServer::new(t, "t");
+  let all: Vec<&Rep> = reps.iter().collect();
+  let want = expected(&all, t);
+  cx.nontrivial(fnv_str(&case.to_string()));
+  cx.count("reports_in_large_input", n as u64);
+  let ps = pools(&[1, 3, 16]);
+  // orders: generation order (groups contiguous), a large odd stride (groups scattered over the whole input), reversed
+  let mut orders: Vec<(&str, Vec<usize>)> = vec![("generation order", (0..n).collect()), ("reversed", (0..n).rev().collect())];
+  let stride = (0..).map(|k| n / 2 + 1 + k).find(|s| gcd(*s, n) == 1).unwrap();
+  orders.push(("scattered (stride n/2+1)", (0..n).map(|i| i * stride % n).collect()));
+  orders.push(("shifted by 4090", (0..n).map(|i| (i + 4090) % n).collect()));
+  for (oname, order) in &orders {
+    let msgs: Vec<Message> = order.iter().map(|&i| reps[i].msg.clone()).collect();
+    for (pn, pool) in &ps {
+      if !judge(cx, observe(&server, pool, &msgs), &want, &|| json!({"t": t, "groups": g, "reports": n, "order": oname, "worker_threads": pn})) {
+        return;
+      }
+    }
+  }
+  cx.count("revealed_groups", want.len() as u64);
+  cx.outcome(format!("{} reports", n));
+  cx.sample(json!({"t": t, "groups": g, "reports": n, "revealed": want.len()}));
+}
+fn gcd(a: usize, b: usize) -> usize {
+  if b == 0 {
+    a
+  } else {
+    gcd(b, a % b)
+  }
+}
+
 fn size_vectors(t: usize, max_groups: usize) -> Vec<Vec<usize>> {
   // all non-decreasing vectors (groups are interchangeable) of 1..=max_groups sizes in 1..=2t
   let mut out = vec![];
@@ -305,6 +388,28 @@ pub fn spec() -> PropSpec {
         },
         run: run_vector,
         min_counts: &[("revealed_groups", 50), ("hidden_groups", 50), ("states", 10_000)],
+      },
+      Check {
+        name: "measurement-lengths",
+        rule: "one group of exactly t reports per measurement length 0..=60, with associated data absent everywhere / mixed: every group alone and all together under pools of 1 and 4 threads (payload framing and any padding at every length residue)",
+        gen: |_| {
+          let mut v = vec![];
+          for t in [1u64, 2] {
+            for aux in [false, true] {
+              v.push(json!({"t": t, "aux": aux}));
+            }
+          }
+          v
+        },
+        run: run_lengths,
+        min_counts: &[("revealed_groups", 200)],
+      },
+      Check {
+        name: "large-inputs",
+        rule: "inputs of several thousand reports (beyond 4096 and 8192): generation order, reversed, scattered with a large stride, shifted by 4090, under pools of 1, 3 and 16 threads",
+        gen: |tier| if tier.thorough() { vec![json!({"t": 2, "groups": 2500}), json!({"t": 3, "groups": 3000}), json!({"t": 1, "groups": 6000})] } else { vec![json!({"t": 2, "groups": 2000})] },
+        run: run_large_input,
+        min_counts: &[("reports_in_large_input", 4200)],
       },
       Check {
         name: "many-groups",
